@@ -143,6 +143,36 @@ def shfmtW (kind : FKind) (c : TmpCfg) (perm umask : Nat) (new : Bytes) : List O
   | .symlink => [.lstat .target, .lstat .target]
   | _ => [.lstat .target]
 
+/-- Where the atomic path gives up when a temporary file cannot be created (name too long for the
+    random suffix, immutable or read-only directory, …): `shfmt -w` then reports the error and
+    must leave the file alone. -/
+inductive FailAt
+  | probeTmp   -- `os.CreateTemp($TMPDIR, …)` fails: no probe, pending file attempted next to the target, fails too
+  | probeDir   -- the probe file next to the target cannot be created: the `$TMPDIR` probe is removed again
+  | temp       -- probing went through, creating the pending file itself fails
+  deriving DecidableEq, Repr, Inhabited
+
+/-- The calls of a `shfmt -w` run whose atomic replace fails (failed calls are not part of the
+    script: they change nothing). -/
+def failScript (c : TmpCfg) (at_ : FailAt) : List Op :=
+  [.lstat .target, .lstat .target, .lstat .target] ++
+  match c, at_ with
+  | .noTmp, _ => []
+  | _, .probeTmp => []
+  | _, .probeDir => [.openExcl .probeTmp 0o600, .close 0, .unlink .probeTmp]
+  | c, .temp => probe c
+
+/-- The alphabet of calls a `shfmt -w` run may make *on the target's name*: `lstat`, and a rename
+    of the complete pending file onto it.  Nothing that creates, truncates, writes, chmods or
+    removes the target in place (descriptors only ever come from `openExcl` of a fresh name). -/
+def allowedOnTarget : Op → Bool
+  | .lstat _ => true
+  | .openExcl p _ => p != .target
+  | .rename a b => a != .target && (b != .target || a == .temp)
+  | .renameXdev a _ => a != .target
+  | .unlink p => p != .target
+  | _ => true
+
 /-- Initial state: only the target exists (inode 0), nothing open. -/
 def init (old : Bytes) (perm umask : Nat) (kind : FKind := .reg) : FS :=
   { names := fun p => if p = .target then some 0 else none
